@@ -39,6 +39,8 @@ Helpers (pure functions)
     sorted_sfields(cls)                       static fields in written order (static_values[k] belongs to [k])
     is_direct(m)                              static, private or constructor
     encode_insns(regs, ret, raw)              the deterministic encoder behind insn_bytes (raw = [(sel, a, b, lit)])
+    pin_hypothesis()                          call once at import of a check: switches off Hypothesis' harvesting of
+                                              constants from local source files (generation then depends on the seed only)
     ACC_* constants, PRIMS, OBJECT, STRING, EXTERNAL_CLASSES, EXTERNAL_INTERFACES, RETURN_OP
 
 Cost: ~10-15 ms of Hypothesis generation per model with 0..8 classes (choices are packed into few draws: one
@@ -106,6 +108,23 @@ def sorted_sfields(cls):
 
 def is_direct(m):
     return bool(m.access & (ACC_STATIC | ACC_PRIVATE | ACC_CONSTRUCTOR))
+
+
+def pin_hypothesis():
+    """Make generation a function of the seed only. Hypothesis (>= 6.13x) harvests integer/str/bytes constants from
+    every *local* module it finds in sys.modules -- here that includes androguard's source and every vf module -- and
+    mixes them into draws; the pool grows as modules get imported, so the generated cases depend on import timing and on
+    the source text of the code under test. Returning an empty pool removes that dependency. Harmless no-op if the
+    internals are laid out differently in another Hypothesis version."""
+    try:
+        from hypothesis.internal.conjecture import providers
+        from sortedcontainers import SortedSet
+        from hypothesis.internal.floats import float_to_int
+        empty = providers.Constants(integers=SortedSet(), floats=SortedSet(key=float_to_int), bytes=SortedSet(),
+                                    strings=SortedSet())
+        providers._get_local_constants = lambda: empty
+    except Exception:           # pragma: no cover - different Hypothesis layout: keep its default behaviour
+        pass
 
 
 # ------------------------------------------------------------------------------------------ names
